@@ -124,6 +124,22 @@ def run(tier, seed):
     bscs = batch_fault_scenarios(rng, 10 if quick else 80, quick)
     btr, bfails = EB.validate(ctx, bscs, lambda clause: clause.startswith("fault."), "BatchSage / IntervalSage with an injected fault at an "
                               "enumerated (call, callback) position")
+    # ... and the explanations computed after a failed one are as right as any other (per-feature averages, efficiency)
+    value_clauses = ("batch.per_feature", "batch.efficiency", "batch.mean_prediction", "batch.mean_then_loss", "batch.shape",
+                     "batch.values_keyed_by_features", "batch.rows_explained", "interval.values_kept")
+    for f in bfails:
+        clause, tid, l = f[0], f[1], f[2]
+        if clause in value_clauses and any(c["outcome"] == "exc" for c in btr[tid]["calls"][: l - 1]):
+            ctx.violation("trace.fault.explanation_after_fault", "%s/%s" % (bscs[tid].cls, bscs[tid].mode),
+                          "call %d of scenario [%s] (after a failed call): clause %s does not hold" % (l, bscs[tid].key(), clause),
+                          {"batch_scenario": bscs[tid].to_json(), "call": l})
+
+    def after_fault(clause):
+        return clause.startswith("float.batch.")
+    after = [(t, sc) for t, sc in zip(btr, bscs) if any(c["outcome"] == "exc" for c in t["calls"][:-1])]
+    if after:
+        # float-level per-feature / efficiency check of every recomputed explanation in traces that contain a fault
+        EB.float_checks(ctx, [t for t, _ in after], [sc for _, sc in after], after_fault)
     nbf = sum(1 for t in btr for c in t["calls"] if c["outcome"] == "exc")
     ctx.count_clause("trace.fault.atomic(batch)", nbf)
     for t, sc in zip(btr, bscs):
